@@ -15,7 +15,7 @@ RULE_TEXT = "obligation = (rule, reader, wire type / read site / type pair); eva
 
 def run(ctx) -> None:
     for name, fn in (("M1", decode.rule_M1), ("M2", decode.rule_M2), ("M2b", decode.rule_M2b), ("M3", decode.rule_M3), ("M3b", decode.rule_M3b),
-                     ("M4", decode.rule_M4), ("M4b", decode.rule_M4b), ("M5", decode.rule_M5), ("N5", decode.rule_N5), ("N2", varint.rule_N2), ("N3", varint.rule_N3), ("N7", varint.rule_N7), ("M6", codec.rule_M6), ("M7", codec.rule_M7), ("T6", codec.rule_T6), ("U2b", decode.rule_U2b), ("M8", decode.rule_M8), ("U11", decode.rule_U11)):
+                     ("M4", decode.rule_M4), ("M4b", decode.rule_M4b), ("M5", decode.rule_M5), ("N5", decode.rule_N5), ("N2", varint.rule_N2), ("N3", varint.rule_N3), ("N7", varint.rule_N7), ("M6", codec.rule_M6), ("M7", codec.rule_M7), ("T6", codec.rule_T6), ("U2b", decode.rule_U2b), ("M8", decode.rule_M8), ("U11", decode.rule_U11), ("M9", decode.rule_M9)):
         ctx.rules_run.append(name)
         fn(ctx)
     ctx.floor("M1", "reader x wire type", len([o for o in ctx.obs if o.rule == "M1"]), 16)
